@@ -233,9 +233,16 @@ for kid, gate, title, q, v, wname in KNOWN:
     CASES["known/%s.json" % kid] = c
 
 
-# findings whose smallest known reproduction is a generated world: kept as files under tools/cases_src/
-for _name in sorted(os.listdir(os.path.join(os.path.dirname(os.path.abspath(__file__)), "cases_src"))):
-    CASES["known/" + _name] = json.load(open(os.path.join(os.path.dirname(os.path.abspath(__file__)), "cases_src", _name)))
+# findings whose smallest known reproduction is a generated world: kept as files under tools/cases_src/ (open)
+# and tools/cases_src_regress/ (fixed)
+_here = os.path.dirname(os.path.abspath(__file__))
+for _dir, _dst in (("cases_src", "known/"), ("cases_src_regress", "regress/")):
+    if os.path.isdir(os.path.join(_here, _dir)):
+        for _name in sorted(os.listdir(os.path.join(_here, _dir))):
+            _c = json.load(open(os.path.join(_here, _dir, _name)))
+            if _dst == "regress/":
+                _c.pop("gate", None)
+            CASES[_dst + _name] = _c
 
 
 def conflict_case(sig, conflicts, add0, add1, neutral=None, add2=None):
@@ -366,6 +373,8 @@ CASES["regress/KF-C18-4.json"] = teardown_case("upstream-open", [("client", "sta
 CASES["regress/KF-C18-5.json"] = teardown_case("frame", [("client", "start", 0, True), ("client", "start", 1, True), ("upstream", "event", 0, False), ("upstream", "event", 1, True),
     ("upstream", "event", 0, False), ("upstream", "event", 1, True), ("upstream", "event", 1, False), ("upstream", "event", 0, True)], nsubs=2, barriers=["se.Listen.beforeWrite"])
 CASES["regress/KF-C18-5.json"]["case"]["header_pause_us"] = 400
+CASES["regress/KF-C18-6.json"] = teardown_case("race", [("client", "start", 0, True), ("upstream", "complete", 0, False), ("client", "disconnect", 0, True)], real_ws=True)
+# KF-C18-7: the case the thorough tier found is kept as a file (tools/cases_src_regress/)
 CASES["regress/KF-C01-13.json"] = exec_case("C01", "data-mismatch", '{ getHumans { x: name name: nick } }')
 CASES["regress/KF-C16-2.json"] = exec_case("C16", "differs", '{ __type(name: "Query") { x: name name: kind } }')
 
@@ -397,6 +406,10 @@ def _nodefield_world():
     return w
 CASES["regress/KF-C01-32.json"] = exec_case("C01", "process-death", '{ getHuman { node { best { name } } } }', w=_nodefield_world())
 CASES["regress/KF-C01-32b.json"] = exec_case("C01", "process-death", '{ getHumans { name x: node { nick } node { best { phone } friends { name } } } }', w=_nodefield_world())
+def _hostile_ids_world():
+    w = json.loads(json.dumps(world()).replace("Human_1", "Human:1").replace("Human_2", "a#b:c"))
+    return w
+CASES["regress/KF-C01-36.json"] = exec_case("C01", "gateway-errors", '{ getHumans { name phone friends { nick phone } best { phone } } }', w=_hostile_ids_world())
 CASES["regress/KF-C01-27.json"] = exec_case("C01", "gateway-errors", '{ __typename getHumans { name } }')
 CASES["regress/KF-C01-27b.json"] = exec_case("C01", "gateway-errors", '{ t: __typename }')
 CASES["regress/KF-C01-27c.json"] = exec_case("C01", "data-mismatch", '{ __schema { queryType { name } } getHumans { name phone } m: __type(name: "Human") { kind name } }')
